@@ -79,11 +79,18 @@ def st_case(draw):
                  * round(10 ** draw(st.floats(0.0, 3.7)), 1) for _ in range(nf)]
         if kind == "trans" and all(c == 0 for c in shift):
             shift[0] = 37.5
-    return {"kind": "relabel", "spec": spec, "relabel": {"perm": perm, "signs": signs, "shift": shift}}
+    case = {"kind": "relabel", "spec": spec, "relabel": {"perm": perm, "signs": signs, "shift": shift}}
+    if draw(st.sampled_from([False, True, True])):
+        case["history"] = {"mode": draw(st.sampled_from(["rebound", "same-manager", "same-manager"])),
+                           "reregister": draw(st.booleans())}
+    return case
 
 
 def strategy(tier):
     return st_case()
+
+
+HISTORY_RTOL = 1e-9
 
 
 def _run(spec, cfg):
@@ -155,6 +162,30 @@ def check_case(case) -> Verdict:
     if "setup_error" in C:
         v.discarded("untransformed tight setup failed")
         return v
+    hist = case.get("history")
+    if hist:
+        # call history: the original labelling was analysed first ON THE SAME OBJECTS (same manager; "rebound": same
+        # model / potential object re-expressed in place); the answers for the relabelled model must be those of a
+        # fresh analysis of the relabelled model (run B)
+        H = e2e.fresh_run({"spec": relab, "cfg": cfg, "what": ["hydro", "lte"],
+                           "first": {"spec": base, "mode": hist["mode"], "reregister": bool(hist.get("reregister"))}})
+        v.label(f"history:{hist['mode']}")
+        if H.get("timeout"):
+            v.label("history:timeout")
+        else:
+            v.checked("history")
+            hcls = f"{cls} {hist['mode']}" + (" reregistered" if hist.get("reregister") else "")
+            if "setup_error" in H:
+                v.fail("history", hcls + " setup", f"after an analysis of the original labelling on the same objects the "
+                       f"set-up of the relabelled model fails ({H['setup_error'][:200]}); a fresh one succeeds")
+            else:
+                worst = e2e.history_worst(H, B)
+                v.info["history_worst"] = list(worst)
+                if worst[0] > HISTORY_RTOL:
+                    v.fail("history", hcls, f"{worst[1]} after an analysis of the original labelling on the same objects "
+                           f"differs from a fresh analysis of the relabelled model by {worst[0]:.3e} (relative; allowed "
+                           f"{HISTORY_RTOL:g}): {H['hydro'].get(worst[1], H.get('lte'))!r} vs "
+                           f"{B['hydro'].get(worst[1], B.get('lte'))!r}")
     ha, hb, hc = A["hydro"], B["hydro"], C["hydro"]
     Tn = ha["Tnucl"]
     tolTrace, tolHyd = cfg["phaseTracerTol"], cfg["hydroRelTol"]
